@@ -180,13 +180,52 @@ def run_harnesses(hs, mode='dbg', jobs=6, timeout=3600, extra=()):
         cmd += ['--harness', h['name']]
     cmd += list(extra)
     t0 = time.time()
+    cpu = {}
+    stop = []
+
+    def sampler():
+        # CPU seconds per harness: Kani's `Verification Time` covers the SAT solver only, while symbolic execution
+        # inside cbmc (and goto-instrument) can dominate; the harness name is part of the goto file name on the
+        # command line of those processes
+        names = sorted((h['name'] for h in hs), key=len, reverse=True)
+        tick = os.sysconf('SC_CLK_TCK')
+        per_pid = {}
+        while not stop:
+            for pid in os.listdir('/proc'):
+                if not pid.isdigit():
+                    continue
+                try:
+                    cl = open(f'/proc/{pid}/cmdline', 'rb').read().decode('utf8', 'replace')
+                    if 'cbmc' not in cl[:200] and 'goto-instrument' not in cl[:200] and 'goto-cc' not in cl[:200]:
+                        continue
+                    if KDIR not in cl and env['CARGO_TARGET_DIR'] not in cl:
+                        continue
+                    st = open(f'/proc/{pid}/stat').read().rsplit(')', 1)[1].split()
+                    t = (int(st[11]) + int(st[12])) / tick
+                except Exception:
+                    continue
+                for n in names:
+                    if n in cl:
+                        per_pid[(pid, n)] = t
+                        break
+            time.sleep(1.0)
+        for (pid, n), t in per_pid.items():
+            cpu[n] = cpu.get(n, 0.0) + t
+    import threading
+    th = threading.Thread(target=sampler, daemon=True)
+    th.start()
     try:
         r = subprocess.run(cmd, cwd=KDIR, env=env, capture_output=True, text=True, timeout=timeout)
         out = r.stdout + '\n' + r.stderr
     except subprocess.TimeoutExpired as ex:
         out = (ex.stdout or b'').decode() if isinstance(ex.stdout, bytes) else (ex.stdout or '')
         out += '\nTIMEOUT'
+    stop.append(1)
+    th.join(timeout=5)
     res = parse_output(out)
+    for n, t in cpu.items():
+        if n in res:
+            res[n]['cpu_s'] = round(t, 1)
     return res, out
 
 
@@ -246,7 +285,7 @@ def run_property(pid, tier, seed=0):
             verdict, reason = evaluate(h, r)
             rec = dict(harness=h['name'], mode=mode, config=h.get('config'), kind=h.get('kind', 'value'), verdict=verdict, reason=reason,
                        checks=(r or {}).get('checks'), covers=(r or {}).get('covers'), covers_sat=(r or {}).get('covers_sat'), time_s=(r or {}).get('time_s'),
-                       failed_checks=(r or {}).get('failed_checks', [])[:5], inputs=h.get('inputs'))
+                       failed_checks=(r or {}).get('failed_checks', [])[:5], inputs=h.get('inputs'), cpu_s=(r or {}).get('cpu_s'))
             out['results'].append(rec)
             out['checks'] += (r or {}).get('checks') or 0
             if verdict == 'fail':
